@@ -18,6 +18,7 @@ type c01Case struct {
 	Bytes    string         `json:"bytes,omitempty"`     // hex, for the accepted-bytes stream
 	EditSeed uint64         `json:"edit_seed,omitempty"` // history stream: serialize, edit in memory (seeded), serialize again
 	Inproc   *c01InprocSpec `json:"inproc,omitempty"`    // driver stream, in-process (c01_inproc.go): Profile through driver.PProf
+	Large    *c01LargeSpec  `json:"large,omitempty"`     // large/compressible stream (c01_large.go): Profile is the BASE, inflated by this spec
 	Profile2 string         `json:"profile2,omitempty"`  // file-history stream: the second (small) input
 	Hist     *c01HistSpec   `json:"hist,omitempty"`      // file-history stream (c01_hist.go): one target path written several times
 	CLI      *c01CLISpec    `json:"cli,omitempty"`       // driver stream (c01_cli.go): Profile through the real pprof binary
@@ -383,14 +384,16 @@ var c01Strategies = []struct {
 }
 
 func runC01(c *Ctx) {
-	c.Res.Rule = "structured valid profiles from 6 strategies (plain, sparse/huge ids, weird strings, extreme ints, shapes, all-default elements), each also as a 2-step history (serialize, seeded in-memory edit, serialize again) + mutated accepted byte strings; + driver level: the same 6 strategies through the real pprof binary (`-proto -output=f in`, plain / with options that must not change a saved profile / -divide_by=d, and interactive sessions with `proto >f` between other commands; one process per case) and through driver.PProf in-process (interactive sessions via the profile copier, web requests then GET /download), output re-read and compared by value with normalize(input); + write-to-file histories through the driver's default writer (one target path written several times across pprof runs, within an interactive session, and within an in-process driver.PProf session: -proto/-raw/-top/-traces, two inputs of different size, focus expressions; target absent, empty, short/longer garbage, longer valid profile, longer read-only file, directory; after every proto write the file is re-read and compared with a fresh write of the same command and with normalize(input)); non-trivial = has ≥1 sample with ≥1 location having ≥1 line (profile and driver streams) or accepted by the parser with ≥1 sample (byte stream) or a proto write over LONGER previous content was checked (file histories); distinct by canonical text (+ mode/flags/script for driver cases)"
+	c.Res.Rule = "structured valid profiles from 6 strategies (plain, sparse/huge ids, weird strings, extreme ints, shapes, all-default elements), each also as a 2-step history (serialize, seeded in-memory edit, serialize again) + mutated accepted byte strings; + large/highly compressible profiles (a base profile of any strategy inflated by 10^3…10^5 repeated samples, comments or label values, or one long periodic string, to 64 KiB … 16 MiB uncompressed and 100:1 … >1000:1 under gzip, padded so that the uncompressed size lands exactly on / next to 64 KiB·k and 2^16…2^21; compressed and uncompressed round trip against the inflated normalize(base)) + driver level: the same 6 strategies through the real pprof binary (`-proto -output=f in`, plain / with options that must not change a saved profile / -divide_by=d, and interactive sessions with `proto >f` between other commands; one process per case) and through driver.PProf in-process (interactive sessions via the profile copier, web requests then GET /download), output re-read and compared by value with normalize(input); + write-to-file histories through the driver's default writer (one target path written several times across pprof runs, within an interactive session, and within an in-process driver.PProf session: -proto/-raw/-top/-traces, two inputs of different size, focus expressions; target absent, empty, short/longer garbage, longer valid profile, longer read-only file, directory; after every proto write the file is re-read and compared with a fresh write of the same command and with normalize(input)); non-trivial = has ≥1 sample with ≥1 location having ≥1 line (profile and driver streams) or accepted by the parser with ≥1 sample (byte stream) or a proto write over LONGER previous content was checked (file histories); distinct by canonical text (+ mode/flags/script for driver cases)"
 	if c.Replay != "" {
 		var cs c01Case
 		if err := c.LoadReplay(&cs); err != nil {
 			c.Res.HarnessError = err.Error()
 			return
 		}
-		if cs.Profile != "" && cs.Hist != nil {
+		if cs.Profile != "" && cs.Large != nil {
+			c01Large(c, cs.Profile, *cs.Large)
+		} else if cs.Profile != "" && cs.Hist != nil {
 			c01HistEval(c, cs, c01HistExec(c, cs, 0))
 		} else if cs.Profile != "" && cs.Inproc != nil {
 			c01InprocEval(c, cs.Profile, *cs.Inproc, c01InprocExec(cs.Profile, *cs.Inproc))
@@ -445,6 +448,8 @@ func runC01(c *Ctx) {
 			c.Res.Count("b:"+hex.EncodeToString(mb), acc)
 		}
 	}
+	// large, highly compressible profiles (Write and WriteUncompressed), sizes on 64 KiB·k / 2^k boundaries
+	c01LargeStream(c, NewRng(c.Seed^0xC01B16), 12*c.Scale)
 	// driver level: the same strategies through the real pprof binary (own PRNG stream, so that the
 	// in-process streams above do not depend on it)
 	c01CLIStream(c, NewRng(c.Seed^0xC01C11), 240*c.Scale)
